@@ -19,6 +19,8 @@ type vFaultSink struct {
 	inner  Sink
 	failAt int
 	calls  int
+	killAt int    // cancel the run's context after the killAt-th batch was written (-1: never)
+	cancel func() // the job kill (context cancellation)
 }
 
 func (s *vFaultSink) GetConfig() map[string]interface{} { return s.inner.GetConfig() }
@@ -32,7 +34,11 @@ func (s *vFaultSink) processEntities(r *Runner, es []*server.Entity) error {
 	if c == s.failAt {
 		return errors.New("injected sink failure")
 	}
-	return s.inner.processEntities(r, es)
+	err := s.inner.processEntities(r, es)
+	if c == s.killAt && s.cancel != nil {
+		s.cancel() // the job is killed while this batch is being delivered
+	}
+	return err
 }
 
 func vListing(hub *server.VHub, name string) []string {
@@ -98,6 +104,10 @@ func VerifC08Token(h *verifh.H) {
 	nb := 1 + h.Choice("batches", h.Param("maxBatches", 2))
 	failAt := h.Choice("sinkFail", nb+1) - 1 // -1: no sink failure
 	full := h.Choice("fullsync", 2) == 1
+	killAt := -1 // the run's context is cancelled (job kill) after batch killAt, or before the run (-2)
+	if h.Param("kill", 0) == 1 {
+		killAt = h.Choice("killAt", nb+2) - 2
+	}
 	mkBatches := func() [][]*server.Entity {
 		var bs [][]*server.Entity
 		for i := 0; i < nb; i++ {
@@ -107,23 +117,29 @@ func VerifC08Token(h *verifh.H) {
 		}
 		return bs
 	}
-	mkPipeline := func(hub *server.VHub, fail int) (Pipeline, *vSource) {
+	mkPipeline := func(hub *server.VHub, fail int) (Pipeline, *vFaultSink) {
 		src := &vSource{batches: mkBatches(), failAt: -1}
-		sink := &vFaultSink{inner: &datasetSink{DatasetName: "dst", Store: hub.Store, DatasetManager: hub.Dsm}, failAt: fail}
+		sink := &vFaultSink{inner: &datasetSink{DatasetName: "dst", Store: hub.Store, DatasetManager: hub.Dsm}, failAt: fail, killAt: -1}
 		spec := PipelineSpec{source: src, sink: sink, batchSize: 1}
 		if full {
-			return &FullSyncPipeline{spec}, src
+			return &FullSyncPipeline{spec}, sink
 		}
-		return &IncrementalPipeline{spec}, src
+		return &IncrementalPipeline{spec}, sink
 	}
 	if h.BeforeCrash() {
 		hub := server.VerifOpenHub(env)
 		_, err := hub.Dsm.CreateDataset("dst", nil)
 		h.Assert(err == nil, "create dst")
-		pl, _ := mkPipeline(hub, failAt)
+		pl, sink := mkPipeline(hub, failAt)
 		j := &job{id: "job-1", title: "job-1", pipeline: pl, runner: vRunner(hub, 1, 1)}
+		ctx, cancel := context.WithCancel(context.Background())
+		sink.killAt, sink.cancel = killAt, cancel
+		if killAt == -2 {
+			cancel()
+		}
 		h.CrashWindowStart()
-		_, _ = pl.sync(j, context.Background())
+		_, _ = pl.sync(j, ctx)
+		cancel()
 	}
 	h.CrashAndRecover()
 	hub := server.VerifOpenHub(env)
